@@ -26,7 +26,7 @@ structure Env where
                               -- min(share of the yearly amount per block, APR cap · TVL / blocks per year / Eden price) — ANY value
 deriving Repr, DecidableEq, Inhabited
 
-inductive Halt | noUsdc | conversion | revenueAddr | bankSend | blocksPerYear | edenPrice | mint
+inductive Halt | noUsdc | conversion | revenueAddr | bankSend | blocksPerYear | edenPrice | mint | stake
 deriving Repr, DecidableEq, Inhabited
 
 /-- commitment MintCoins → bank MintCoins: `Coins.Validate` rejects a coin whose amount is not positive -/
@@ -76,5 +76,34 @@ def afterProvider (c p : Int) : Int := c - (c * p).tdiv P
 /-- baseapp's per-transaction isolation (TRUSTED, restated): a tx runs on a branch of the state; the branch is written
 back only when the tx succeeds (panics are recovered and count as failure) -/
 def runTx {σ : Type} (s : σ) (tx : σ → Except Unit σ) : σ := match tx s with | .ok s' => s' | .error _ => s
+
+/-! ### the EdenB burn and the distribution module's starting info
+(x/commitment/keeper/commitments.go `BurnEdenBoost`; x/estaking hooks re-initialise the delegator's starting info for the virtual
+EdenB validator from the STORED commitment; cosmos-sdk x/distribution `CalculateDelegationRewards` panics — in the estaking
+end-blocker, with no recover — when the stake recorded in the starting info exceeds the delegator's current stake) -/
+
+structure EdenB where
+  stored : Int := 0      -- committed EdenB in the commitment store (the delegator's "stake" with the EdenB validator)
+  started : Int := 0     -- stake recorded in the distribution starting info
+deriving Repr, DecidableEq, Inhabited
+
+/-- `BurnEdenBoost x`: `saveFirst` = the store is written before the `CommitmentChanged` hook runs (the code); otherwise the hook
+reads the pre-burn amount (seeded change C18-3) -/
+def burnEdenB (saveFirst : Bool) (s : EdenB) (x : Int) : EdenB :=
+  let after := s.stored - x
+  { stored := after, started := if saveFirst then after else s.stored }
+
+/-- a commit of more EdenB: store written, hook re-initialises -/
+def commitEdenB (s : EdenB) (x : Int) : EdenB := { stored := s.stored + x, started := s.stored + x }
+
+/-- the end-blocker's reward withdrawal: panics when the starting info records more stake than there is -/
+def withdrawEdenB (s : EdenB) : Except Halt EdenB := if s.started > s.stored then .error .stake else .ok s
+
+inductive EdenBOp | burn (x : Int) | commit (x : Int)
+deriving Repr, DecidableEq, Inhabited
+
+def edenBStep (saveFirst : Bool) (s : EdenB) : EdenBOp → EdenB
+  | .burn x => burnEdenB saveFirst s x
+  | .commit x => commitEdenB s x
 
 end Elys.Blocks
